@@ -565,7 +565,9 @@ TRANSLATED = {
     "C07": ["tr_identity.py -> Gen/GenIdentity.v (as_dict / from_dict / __init__ / __eq__ of six identity classes)"],
     "C08": ["tr_termination.py -> Gen/GenTermination.v", "tr_facts.py -> Gen/GenFactsSession.v (load_before_execute, close_in_finally)"],
     "C09": ["tr_facts.py -> Gen/GenFactsPersist.v (persist_locked)"],
-    "C10": ["tr_termination.py -> Gen/GenTermination.v"],
+    "C10": ["tr_termination.py -> Gen/GenTermination.v",
+            "tr_ui.py -> Gen/GenUi.v (escape_braces, detail_indent, details_escaped, output_passes_ind)",
+            "tr_main.py -> Gen/GenMain.v (exit_status, config_errors_are_ui_errors, ui_error_printed_through_format)"],
     "C11": ["tr_termination.py -> Gen/GenTermination.v", "tr_facts.py -> Gen/GenFactsPersist.v (persist_locked)",
             "tr_par.py -> Gen/GenPar.v (num_threads, take_items, acquire_locked, acquire_pops, workers_loop, one_worker_per_thread)"],
     "C12": ["tr_regex.py -> Gen/GenRegex.v"],
